@@ -37,7 +37,7 @@ def body_ctag_step(c0, c1, c2, target, body, hist):
 def h_ctag_step(c0: bytes, c1: bytes, c2: bytes, target: int, body: bytes, hist: int) -> bool:
     """
     pre: len(c0) <= ctx.b.blen and len(c1) <= ctx.b.blen and len(c2) <= ctx.b.blen and len(body) <= ctx.b.blen
-    pre: 0 <= target < ctx.b.n + 3 and 0 <= hist <= 2
+    pre: 0 <= target < ctx.b.n + 4 and 0 <= hist <= 2
     post: _
     """
     return run(body_ctag_step, c0, c1, c2, target, body, hist)
@@ -105,7 +105,7 @@ def body_ctag_fault(c0, c1, target, body, k):
 
 def h_ctag_fault(c0: bytes, c1: bytes, target: int, body: bytes, k: int) -> bool:
     """
-    pre: len(c0) <= 2 and len(c1) <= 2 and len(body) <= 2 and 0 <= target < 5 and 1 <= k <= 12
+    pre: len(c0) <= 2 and len(c1) <= 2 and len(body) <= 2 and 0 <= target < 6 and 1 <= k <= 12
     post: _
     """
     return run(body_ctag_fault, c0, c1, target, body, k)
